@@ -55,6 +55,7 @@ MODULE_ATTRS = {"pulp.LpSolverDefault": "opt[LpSolver]"}
 UFUNS = dict(common_c.UFUNS)
 UFUNS.update({
     "degree30": (["int"], "bool"),     # "no stem of the structure crosses more than 29 other stems" (see degree30_definition)
+    "numeral": (["str"], "bool"),      # "is a plain decimal numeral [0-9]+" (numeral_definition; keeps regular-language reasoning local)
     "esum": (["int", "int"], "int"),   # running sum of the values of the first n variables of the list-sum constraint k
 })
 
@@ -105,16 +106,15 @@ def _combinations(e, args, kw, node, st):
 
 def _split(e, args, kw, node, st):
     """s.split(sep) for a non-empty constant separator: a list of at least one string, named by the uninterpreted functions
-    str.split.len / str.split.at of (s, sep); what is assumed about them: lemma split3"""
+    str.split.len (its length) / str.split.parts (its elements) of (s, sep); what is assumed about them: lemma split3"""
     if len(args) != 2 or not isinstance(args[1], str) or not args[1]:
         raise Unsupported("str.split: only split(<non-empty constant separator>) is modelled")
     s, sep = to_z3(args[0]), z3.StringVal(args[1])
     ln = e.ufun("str.split.len", z3.StringSort(), z3.StringSort(), z3.IntSort())(s, sep)
-    at = e.ufun("str.split.at", z3.StringSort(), z3.StringSort(), z3.IntSort(), z3.StringSort())
-    q = z3.Int(uid("q"))
+    parts = e.ufun("str.split.parts", z3.StringSort(), z3.StringSort(), z3.ArraySort(z3.IntSort(), z3.StringSort()))(s, sep)
     if st is not None:
         st.assume(ln >= 1)
-    return VList(ln, z3.Lambda([q], at(s, sep, q)), ("str",))
+    return VList(ln, parts, ("str",))
 
 
 def _HiGHS_CMD(e, args, kw, node, st):
@@ -401,7 +401,7 @@ DIGITS = "[0-9]+"
 def parses_as(nm, a, b):
     """what the read-back does with a variable name: nm.split('_') has three parts, the last two are plain decimal numerals
     denoting a and b"""
-    return (len(nm.split('_')) == 3 and matches(nm.split('_')[1], DIGITS) and matches(nm.split('_')[2], DIGITS)
+    return (len(nm.split('_')) == 3 and numeral(nm.split('_')[1]) and numeral(nm.split('_')[2])
             and int(nm.split('_')[1]) == a and int(nm.split('_')[2]) == b)
 
 
@@ -502,6 +502,7 @@ LEMMAS.update({
     # property quantifier: "structures needing at most 30 bracket levels" - the MILP encoder needs the stronger degree bound
     "degree30_definition": {"kind": "definition", "params": ["s", "R"],
                             "ensures": ["implies(degree30(s), forall(lambda a: implies(0 <= a and a < len(R), card(nbrs(R, a)) <= 29)))"]},
+    "numeral_definition": {"kind": "definition", "params": ["t"], "shapes": ["str"], "ensures": ["numeral(t) == matches(t, DIGITS)"]},
     "esum_definition": {"kind": "definition", "params": ["P"], "ensures": ["esum_def(P)"]},
     # Python facts about str.split / int() / str()
     "split3": {"kind": "assumed-external", "params": ["a", "b", "c"], "shapes": ["str", "str", "str"],
@@ -611,8 +612,9 @@ class convert_to_dot_bracket:
                 # the string facts: proved from the five facts just stated alone (assert_last), inside a scope so that only the
                 # conclusion stays in the context
                 "scoped assert i >= 0 and j >= 0 | use int_str_roundtrip(i) | use int_str_roundtrip(j) "
-                "| use split3('x', str(i), str(j)) | assert variable.name == 'x' + '_' + str(i) + '_' + str(j) "
-                "| assert_last 5 parses_as(variable.name, i, j) | assert parses_as(variable.name, i, j)"]},
+                "| use split3('x', str(i), str(j)) | use numeral_definition(str(i)) | use numeral_definition(str(j)) "
+                "| assert variable.name == 'x' + '_' + str(i) + '_' + str(j) "
+                "| assert_last 7 parses_as(variable.name, i, j) | assert parses_as(variable.name, i, j)"]},
         {"when": "before", "at": "terms = []", "label": "variables-done", "do": ["let A2 = frontier()"]},
         {"when": "before", "at": "for i in graph.keys()", "label": "adjacency",
          "do": ["let ADJ = empty('dict[tuple[int,int,int],int]')", "let G0 = graph"]},
@@ -622,7 +624,8 @@ class convert_to_dot_bracket:
          "do": ["let SOLVED = True", "let STATUS = P0.status", "use esum_definition(P0)"]},
         {"when": "before", "at": "logging.warning('POA: failed", "label": "solver-raised", "do": ["let RAISED = True"]},
         {"when": "before", "at": "i, order = map(", "label": "parse-name",
-         "do": ["let VI = GI[ident(variable)]", "let VJ = GJ[ident(variable)]", "assert parses_as(name, VI, VJ)"]},
+         "do": ["let VI = GI[ident(variable)]", "let VJ = GJ[ident(variable)]", "assert parses_as(name, VI, VJ)",
+                "use numeral_definition(name.split('_')[1])", "use numeral_definition(name.split('_')[2])"]},
         {"when": "after", "at": "i, order = map(", "label": "parsed", "do": ["assert i == VI and order == VJ"]},
         {"when": "before", "at": "return self.__make_dot_bracket(regions, orders)", "label": "read-back",
          "do": ["forall a | use esum_witness(P0, a, max_order) | "
